@@ -1052,11 +1052,8 @@ func FromV3SchemaRef(schema *openapi3.SchemaRef, components *openapi3.Components
 		v2Schema.AllOf[i], _ = FromV3SchemaRef(v, components)
 	}
 	if schema.Value.PermitsNull() {
-		schema.Value.Nullable = false
-		if schema.Value.Extensions == nil {
-			v2Schema.Extensions = make(map[string]any)
-		}
-		v2Schema.Extensions["x-nullable"] = true
+		// in a copy: the OpenAPI 3 schema stays nullable and gains no extension
+		v2Schema.Extensions = extensionsWith(schema.Value.Extensions, "x-nullable", true)
 	}
 
 	return &openapi2.SchemaRef{
